@@ -194,7 +194,7 @@ func (w *Reconciler) syncJobTasks(
 	// NOTE(irvinlim): Avoid using List() which performs a complete linear search.
 	tasks := make([]jobtasks.Task, 0, len(rj.Status.Tasks))
 	for _, ref := range rj.Status.Tasks {
-		task, err := w.getTask(ctx, rj, taskMgr, ref)
+		task, err := w.getTask(ctx, rj, taskMgr, ref, false)
 		if err != nil {
 			return rj, errors.Wrapf(err, "cannot get task %v", ref.Name)
 		}
@@ -289,8 +289,11 @@ func hasUnrecordedTasks(rj *execution.Job, tasks []jobtasks.Task) bool {
 // be received for it (if the watch is re-established in the meantime, a task that
 // was deleted is never seen by the cache at all), so the Job is synced again
 // after a while instead of waiting for an event.
+//
+// A finished task which is missing from the cache is assumed to be gone, unless
+// confirmDeleted is set.
 func (w *Reconciler) getTask(
-	ctx context.Context, rj *execution.Job, taskMgr jobtasks.Executor, ref execution.TaskRef,
+	ctx context.Context, rj *execution.Job, taskMgr jobtasks.Executor, ref execution.TaskRef, confirmDeleted bool,
 ) (jobtasks.Task, error) {
 	task, err := taskMgr.Lister().Get(ref.Name)
 	if err == nil {
@@ -299,7 +302,7 @@ func (w *Reconciler) getTask(
 		if !isTaskRefAhead(ref, task) {
 			return task, nil
 		}
-	} else if !kerrors.IsNotFound(err) || !ref.FinishTimestamp.IsZero() {
+	} else if !kerrors.IsNotFound(err) || (!confirmDeleted && !ref.FinishTimestamp.IsZero()) {
 		return nil, nil
 	}
 	task, err = taskMgr.Client().Get(ctx, ref.Name)
@@ -919,9 +922,12 @@ func (w *Reconciler) handleFinishFinalizer(
 
 	// Get list of all created tasks from cache.
 	// Use CreatedTaskRefs as they are guaranteed to contain all tasks that have been created by this Job.
+	// The cache for tasks may lag behind, so a task which is missing from the cache
+	// is confirmed to be deleted with the apiserver even if it is finished,
+	// otherwise the finalizer may be removed while the task still exists.
 	tasks := make([]jobtasks.Task, 0, len(rj.Status.Tasks))
 	for _, taskRef := range rj.Status.Tasks {
-		task, err := w.getTask(ctx, rj, taskMgr, taskRef)
+		task, err := w.getTask(ctx, rj, taskMgr, taskRef, true)
 		if err != nil {
 			return rj, errors.Wrapf(err, "cannot get task %v", taskRef.Name)
 		}
